@@ -12,6 +12,24 @@ LEVEL = "model_checking"
 BAD = 99999999
 
 
+RROUTE = [0]
+
+
+def make_resize(darsia, tgt, cons):
+    """The same resizer reached by the routes the constructor offers, taken in turn: arguments, plain option keys, option
+    keys under a prefix (as when the options come from a larger configuration addressed by a key)."""
+    RROUTE[0] += 1
+    r = RROUTE[0] % 4
+    if r == 0:
+        return darsia.Resize(shape=tgt, interpolation="inter_area", **{"resize conservative": cons})
+    if r == 1:
+        return darsia.Resize(**{"resize shape": tuple(tgt), "resize interpolation": "inter_area", "resize conservative": cons})
+    if r == 2:
+        return darsia.Resize(key="restoration ", **{"restoration resize shape": tuple(tgt), "restoration resize interpolation": "inter_area",
+                                                    "restoration resize conservative": cons, "resize conservative": not cons})
+    return darsia.Resize(None, tuple(tgt), None, None, "inter_area", **{"resize conservative": cons})
+
+
 def ints(a, scale=1.0, tol=1e-5):
     a = np.asarray(a, dtype=float).ravel() * scale
     r = np.round(a)
@@ -103,7 +121,7 @@ def events(darsia, rng, shapes, quick, arrangements):
             cons = rng.random() < 0.5
             with warnings.catch_warnings():
                 warnings.simplefilter("ignore")
-                rz = darsia.Resize(shape=tgt, interpolation="inter_area", **{"resize conservative": cons})
+                rz = make_resize(darsia, tgt, cons)
                 out = rz(img if rng.random() < 0.7 else a)
             res = out.img if isinstance(out, darsia.Image) else out
             ev.append({"tid": f"area-down:{s}:{k}:{int(cons)}", "op": "area", "down": 1, "shape": list(s), "k": k, "data": ints(a), "conservative": int(cons),
@@ -112,7 +130,7 @@ def events(darsia, rng, shapes, quick, arrangements):
             tgt = (s[0] * ku[0], s[1] * ku[1])
             with warnings.catch_warnings():
                 warnings.simplefilter("ignore")
-                out = darsia.Resize(shape=tgt, interpolation="inter_area", **{"resize conservative": cons})(img)
+                out = make_resize(darsia, tgt, cons)(img)
             ev.append({"tid": f"area-up:{s}:{ku}:{int(cons)}", "op": "area", "down": 0, "shape": list(s), "k": ku, "data": ints(a), "conservative": int(cons),
                        "res": ints(out.img, ku[0] * ku[1] if cons else 1), "dims_kept": dims_kept(img, out)})
     # generic down-sampling; one Resize object (fixed target shape) serves several inputs of different resolutions, as in
@@ -123,7 +141,7 @@ def events(darsia, rng, shapes, quick, arrangements):
         cons = rng.random() < 0.5
         with warnings.catch_warnings():
             warnings.simplefilter("ignore")
-            rz = darsia.Resize(shape=tgt, interpolation="inter_area", **{"resize conservative": cons})
+            rz = make_resize(darsia, tgt, cons)
         for _ in range(rng.randint(2, 3)):
             s = (rng.randint(tgt[0], 9), rng.randint(tgt[1], 9))
             kind = rng.choice(["scalar", "vector", "series"])
